@@ -34,7 +34,7 @@ func runC18(res *Result, rng *RNG, tier string, outDir string) {
 	res.Rule = "random authorizer contents (facts, rules, checks with alternative queries, ordered allow/deny policies; every term type, default and fresh symbols, expressions) saved with SerializePolicies from an unevaluated authorizer and loaded with LoadPolicies into a fresh authorizer for the same and for a different token: verdict (class + failed checks), world after Authorize and a panel of query results must equal those of an authorizer given the same content directly. Saving after Authorize (any outcome, also a failed run) or Query must be refused. Loading mutated snapshot bytes (bit flips, truncations, field edits, random bytes) must return an error or succeed, never panic. Non-trivial = content with at least one check or policy and one fresh symbol; distinct by canonical content text."
 	n := 150
 	if tier == "thorough" {
-		n = 2500
+		n = 7000
 	}
 	var lines, descs []string
 	for i := 0; i < n; i++ {
